@@ -47,7 +47,9 @@ How to build and run the existing test suite in your worktree (takes a few minut
   cmake --build {wt}/_build -j6 --target self_test && {wt}/_build/test/self_test | tail -3
   (expect "All tests passed (1355 assertions in 601 test cases)"; Catch2 v3 is installed system-wide; there is no network.)
 Your demonstration must build with:  g++ -std=c++17 -I{wt}/include demo.cpp -o demo   (add -pthread only if you need threads,
--std=c++20 only if the property is about coroutines — say so in notes.md), must use only the public API of the library plus a
+-std=c++20 only if the property is about coroutines; a sanitizer flag such as -fsanitize=address or -fsanitize=thread only if the
+failure is a memory error or a data race; if you need anything beyond `-std=c++17`, write the complete list of extra/replacement
+flags on one line into {out}/flags.txt, e.g. `-std=c++20` or `-pthread -fsanitize=thread -O1 -g`), must use only the public API of the library plus a
 reporter it installs itself with trompeloeil::set_reporter, must print which check failed, and must return non-zero iff a check failed.
 
 Deliver, in {out}/ :
